@@ -268,15 +268,20 @@ def h_matrix_seed(ctx, driver, layout):
         ctx.eq(J.reshape(ref.shape), ref, 'extract_jacobian for a matrix-shaped seed point (%s layout)' % layout)
 
 
-def h_tensor(ctx, N, d, m, full=False):
-    """extract_tensor at a concrete integer point: residual linear in the coefficients"""
+def h_tensor(ctx, N, d, m, full=False, point='float', scale=None):
+    """extract_tensor at a concrete integer point: residual linear in the coefficients.
+    point: how the seed point is given ('float' array, 'int' array, 'int32' array, python 'list' of
+    ints); scale: the program is multiplied by this (tiny) factor and compared relative to it"""
     algopy = symx.load_algopy()
     UTPM = algopy.UTPM
     import algopy.exact_interpolation as ei
     mons, C = coeff_vars(ctx, 1, N, m, box=True)
-    f = program(algopy, C, mons, 'scalar')
+    f0 = program(algopy, C, mons, 'scalar')
+    sc = Fraction(scale) if scale is not None else Fraction(1)
+    f = f0 if scale is None else (lambda x: f0(x) * (sc if ctx.mode == 'sym' else float(sc)))
     xi = [1, 2, 3, -1, 2][:N]
-    x = np.array(xi, dtype=float)
+    x = {'float': lambda: np.array(xi, dtype=float), 'int': lambda: np.array(xi), 'int32': lambda: np.array(xi, dtype=np.int32),
+         'list': lambda: list(xi)}[point]()
     y = f(UTPM.init_tensor(d, x))
     T = np.asarray(plain(np.asarray(UTPM.extract_tensor(N, y, as_full_matrix=full), dtype=object)), dtype=object)
     mi = ei.generate_multi_indices(N, d)
@@ -289,8 +294,8 @@ def h_tensor(ctx, N, d, m, full=False):
                 for bb, aa, xx in zip(b, alpha, xi):
                     w *= math.comb(bb, aa) * Fraction(xx) ** (bb - aa)
                 tot = tot + cb * (w if ctx.mode == 'sym' else float(w))
-        return tot
-    tol = Fraction(1, 10**9) * len(mons)
+        return tot * (sc if ctx.mode == 'sym' else float(sc))
+    tol = Fraction(1, 10**9) * len(mons) * sc
     if not full:
         ctx.fact(T.shape == (mi.shape[0],), 'tensor shape %s' % (T.shape,))
         for i, alpha in enumerate(mi):
@@ -300,7 +305,7 @@ def h_tensor(ctx, N, d, m, full=False):
                 ctx.holds(r <= tol, 'tensor[%s] - exact <= tol' % (tuple(alpha),))
                 ctx.holds(r >= -tol, 'tensor[%s] - exact >= -tol' % (tuple(alpha),))
             else:
-                ctx.eq(T[i], ref, 'tensor[%s]' % (tuple(alpha),))
+                ctx.eq(T[i] / float(sc), ref / float(sc), 'tensor[%s]' % (tuple(alpha),))
     else:
         # the default as_full_matrix=True: the full symmetric d-th derivative tensor of shape (N,)*d,
         # T[i1,..,id] = d^d f / dx_i1 .. dx_id = alpha! * (Taylor coefficient of alpha)
@@ -320,7 +325,7 @@ def h_tensor(ctx, N, d, m, full=False):
                 ctx.holds(r <= tol * fact, 'T%s - exact <= tol' % (list(idx),))
                 ctx.holds(r >= -tol * fact, 'T%s - exact >= -tol' % (list(idx),))
             else:
-                ctx.eq(T[idx], ref, 'T%s' % (list(idx),))
+                ctx.eq(T[idx] / float(sc), ref / float(sc), 'T%s' % (list(idx),))
 
 
 def h_tensor_sequence(ctx, pairs):
@@ -368,6 +373,12 @@ def h_intpoint(ctx, driver, N):
         ref = sum(g[j] * vs[j] for j in range(N))
         r = UTPM.extract_jac_vec(f(UTPM.init_jac_vec(x, v)))
         ctx.eq(flat(r).ravel(), np.array([ref], dtype=object), 'jac_vec at integer point')
+    elif driver in ('tensor', 'tensor(list)', 'tensor(int32)'):
+        xt = {'tensor': x, 'tensor(list)': list(xi), 'tensor(int32)': np.array(xi, dtype=np.int32)}[driver]
+        T = UTPM.extract_tensor(N, f(UTPM.init_tensor(2, xt)))
+        ctx.eq(flat(T), np.array(H, dtype=object), 'second-order tensor (as full matrix) at integer point')
+        T1 = UTPM.extract_tensor(N, f(UTPM.init_tensor(1, xt)))
+        ctx.eq(flat(T1).ravel(), np.array(g, dtype=object), 'first-order tensor at integer point')
 
 
 def units(tier, seed):
@@ -404,11 +415,19 @@ def units(tier, seed):
         if drv in ('jacobian', 'jac_vec'):
             add('%s/matrix-valued result/N3' % drv, 'h_driver', driver=drv, N=3, M=1, m=0, smooth='matrix-valued')
         add('%s/integer-typed point' % drv, 'h_intpoint', o={'validate': False}, driver=drv, N=2)
+    for drv in ('tensor', 'tensor(list)', 'tensor(int32)'):
+        add('%s/integer-typed point' % drv, 'h_intpoint', o={'validate': False}, driver=drv, N=2)
     for layout in ('C', 'F'):
         add('hessian/matrix-shaped seed point/%s layout' % layout, 'h_matrix_seed', driver='hessian', layout=layout)
     for (N, d) in ([(1, 2), (2, 2), (2, 3), (3, 2), (2, 4)] if tier == 'quick' else
                    [(1, 2), (1, 3), (2, 2), (2, 3), (3, 2), (2, 4), (3, 3), (4, 2), (2, 5), (3, 4), (4, 3), (5, 2), (2, 6), (1, 6)]):
         add('tensor/N%d,d%d' % (N, d), 'h_tensor', o={'validate': False}, N=N, d=d, m=d + 1)
+    for pt in ('int', 'list', 'int32'):
+        add('tensor/N2,d3/seed point given as %s' % pt, 'h_tensor', N=2, d=3, m=4, point=pt)
+        add('full derivative tensor/N3,d2/seed point given as %s' % pt, 'h_tensor', N=3, d=2, m=3, full=True, point=pt)
+    for sc in ('3/100000000000000', '1/100000000000000000000'):
+        add('tensor/N2,d3/program scaled by %s' % sc, 'h_tensor', N=2, d=3, m=4, scale=sc)
+        add('full derivative tensor/N2,d2/program scaled by %s' % sc, 'h_tensor', N=2, d=2, m=3, full=True, scale=sc)
     for pairs in [[(3, 2), (2, 5)], [(2, 2), (3, 1)], [(2, 3), (4, 1)]]:
         add('tensor sequence %s' % pairs, 'h_tensor_sequence', o={'validate': False}, pairs=pairs)
     for N in (2, 3):
